@@ -11,7 +11,8 @@
 EXTENDS TraceNet, AirInterp
 
 StripCid(s) ==
-    IF s.k \in {"exec", "failed"} THEN [s EXCEPT !.c = ""]
+    IF s.k = "exec" THEN [s EXCEPT !.c = "", !.sn = ""]
+    ELSE IF s.k = "failed" THEN [s EXCEPT !.c = ""]
     ELSE IF s.k = "cexec" THEN [s EXCEPT !.c = "", !.vals = [i \in 1..Len(s.vals) |-> [s.vals[i] EXCEPT !.provc = ""]]]
     ELSE s
 StripTrace(tr) == [i \in 1..Len(tr) |-> StripCid(tr[i])]
@@ -54,6 +55,43 @@ InvC19c ==
         (~m.unsup /\ e.out.died = "" /\ m.code = e.out.code /\ ReturnsNewData(e.out.code)
             /\ StripTrace(m.data.trace) = StripTrace(e.out.data.trace)) =>
             Report("C19", SetOf(m.next) \subseteq SetOf(e.out.next))
+
+\* ---- projections for the stream properties (oracle: the model's streams)
+SupportedRun(m, e) == ~m.unsup /\ e.out.died = "" /\ m.code = e.out.code /\ ReturnsNewData(e.out.code)
+SeqBag(q) == LET ks == {q[i] : i \in 1..Len(q)} IN [k \in ks |-> Cardinality({i \in 1..Len(q) : q[i] = k})]
+Canons(tr) == SelectSeq(StripTrace(tr), LAMBDA s : s.k = "cexec")
+ReqKeys(q) == [i \in 1..Len(q) |-> <<q[i].srv, q[i].fn, q[i].args>>]
+\* C11: the canonical values fixed in this run are exactly what the designated peer's streams hold according to the
+\* model (same elements, same order), and canon results carried over are unchanged
+InvC11 ==
+    IsRun =>
+        LET e == Last  m == ModelOutcome(pre, e) IN
+        /\ Report("C11", C11order(pre, e))
+        /\ (SupportedRun(m, e) => Report("C11", Canons(m.data.trace) = Canons(e.out.data.trace)))
+\* C13: the streams hold exactly the merged appends (seen through the local canons) and the stream folds visit each
+\* value once (seen through the requests issued from fold bodies): both as bags against the model
+InvC13 ==
+    IsRun =>
+        LET e == Last  m == ModelOutcome(pre, e) IN
+        SupportedRun(m, e) =>
+            Report("C13", /\ SeqBag(Canons(m.data.trace)) = SeqBag(Canons(e.out.data.trace))
+                          /\ SeqBag(ReqKeys(m.reqs)) = SeqBag(ReqKeys(e.out.reqs))
+                          /\ Cardinality({i \in 1..Len(m.data.trace) : m.data.trace[i].k \in {"ap", "exec"}})
+                             = Cardinality({i \in 1..Len(e.out.data.trace) : e.out.data.trace[i].k \in {"ap", "exec"}}))
+\* C12: relative generation order of the stream values, against the previous data of the peer (model-free) and
+\* against the model (same relative order of every pair of stream values, whatever the numbers)
+StreamVals(tr) == {i \in 1..Len(tr) : tr[i].k = "exec" /\ tr[i].vt = "stream"}
+SameOrder(t1, t2) ==
+    Len(t1) = Len(t2) =>
+        \A i, j \in StreamVals(t1) :
+            (i \in StreamVals(t2) /\ j \in StreamVals(t2)) => ((t1[i].g < t1[j].g) = (t2[i].g < t2[j].g))
+InvC12 ==
+    IsRun =>
+        LET e == Last  m == ModelOutcome(pre, e) IN
+        /\ Report("C12", "new_stream" \in aux.feats \/ C12(pre, e))
+        /\ ((SupportedRun(m, e) /\ StripTrace([i \in 1..Len(m.data.trace) |-> IF m.data.trace[i].k = "exec" THEN [m.data.trace[i] EXCEPT !.g = 0] ELSE m.data.trace[i]])
+                               = StripTrace([i \in 1..Len(e.out.data.trace) |-> IF e.out.data.trace[i].k = "exec" THEN [e.out.data.trace[i] EXCEPT !.g = 0] ELSE e.out.data.trace[i]]))
+              => Report("C12", SameOrder(m.data.trace, e.out.data.trace)))
 
 InvConf ==
     IsRun =>
